@@ -303,7 +303,7 @@ def run_one(pid, site, tier, shards, extra_env=None):
         shutil.copytree(REPO_SRC, tmp / "src", ignore=shutil.ignore_patterns("__pycache__", "tests"))
         (tmp / "src" / site["file"]).write_text(msrc)
         env = dict(os.environ, VP_REPO_SRC=str(tmp / "src"), VP_OUT=str(tmp / "out"), VP_FAILFAST_FLAG=str(tmp / "flag"),
-                   VP_SHARDS=str(shards))
+                   VP_SHARDS=str(shards), VP_CASE_TIMEOUT="60", VP_MEMLIMIT_GB="12")
         env.update(extra_env or {})
         # does the mutated module import at all?
         mod = site["file"][:-3].replace("/", ".")
@@ -311,7 +311,11 @@ def run_one(pid, site, tier, shards, extra_env=None):
                            capture_output=True, text=True)
         if r.returncode != 0:
             return {"status": "invalid", "detail": r.stderr[-300:], "before": before, "after": after}
-        r = subprocess.run([str(V / "check"), pid, "--tier", tier], env=env, capture_output=True, text=True)
+        try:
+            r = subprocess.run([str(V / "check"), pid, "--tier", tier], env=env, capture_output=True, text=True, timeout=1500)
+        except subprocess.TimeoutExpired:
+            subprocess.run(["pkill", "-f", str(tmp)], capture_output=True)
+            return {"status": "timeout", "before": before, "after": after, "wall_s": round(time.time() - t0, 1)}
         kinds = [l.split("kind=")[1].split(" msg=")[0] for l in r.stdout.splitlines() if l.startswith("  finding kind=")]
         status = {0: "survived", 1: "killed", 2: "harness"}.get(r.returncode, f"exit{r.returncode}")
         res = {"status": status, "before": before, "after": after, "kinds": kinds[:6], "wall_s": round(time.time() - t0, 1)}
